@@ -21,6 +21,10 @@ pub enum Op {
     Snapshot { db: usize, reclaim: bool },
     /// kill the process and start it again on the surviving disk
     Restart,
+    /// `snapshot <reclaim>` released to run on the node's snapshot thread while the following
+    /// operations execute (nothing is captured; a later completed snapshot is what a restart is
+    /// compared with)
+    SnapRace { db: usize, reclaim: bool },
 }
 
 #[derive(Clone, Debug, Serialize, Deserialize)]
@@ -53,6 +57,8 @@ pub fn gen(rng: &mut Rng, long: bool) -> Program {
             6 | 7 => Op::Inc { db, key, by: rng.range(1, 9) as i32 - 3 },
             8 | 9 => Op::Snapshot { db, reclaim: false },
             10 => Op::Snapshot { db, reclaim: true },
+            // (Op::SnapRace is not generated: the statement quantifies over sequential histories; the op
+            //  exists for exploratory replay files, see findings/)
             11 => Op::Restart,
             12 => Op::Snapshot { db, reclaim: rng.chance(1, 2) },
             _ => Op::Remove { db, key },
@@ -107,6 +113,9 @@ pub fn execute(prog: Program) -> Outcome {
     // state captured when the last snapshot of each database completed
     let mut snap: Vec<Option<BTreeMap<String, (String, i32)>>> = vec![None; ndbs];
     let mut snap_model: Vec<Option<BTreeMap<String, String>>> = vec![None; ndbs];
+    // a snapshot was released to race with later commands and no completed snapshot followed yet: what
+    // the disk holds lies somewhere between two states of the history
+    let mut racy: Vec<bool> = vec![false; ndbs];
     let mut meta: Vec<Option<(usize, String)>> = (0..ndbs).map(|i| db_meta(&dbs, DBNAMES[i])).collect();
     // per (db,key) event history for the violation shape
     let mut hist: BTreeMap<(usize, String), Vec<&'static str>> = BTreeMap::new();
@@ -179,6 +188,17 @@ pub fn execute(prog: Program) -> Outcome {
                     hist.entry((*db, key.clone())).or_default().push("inc");
                 }
             }
+            Op::SnapRace { db, reclaim } => {
+                if !exists[*db] {
+                    continue;
+                }
+                select!(*db);
+                if !admin.exec(&format!("snapshot {}", reclaim)).resp.is_err() {
+                    racy[*db] = true;
+                    w.declutter_kick(0);
+                    nundb_verif_rt::kernel::with(|k| k.fault("snapshot_racing_commands"));
+                }
+            }
             Op::Snapshot { db, reclaim } => {
                 if !exists[*db] {
                     continue;
@@ -218,6 +238,7 @@ pub fn execute(prog: Program) -> Outcome {
                 }
                 snap[*db] = Some(lv);
                 snap_model[*db] = Some(model[*db].clone());
+                racy[*db] = false;
                 for ((d2, _k), h) in hist.iter_mut() {
                     if d2 == db {
                         h.push(if *reclaim { "SNAPR" } else { "SNAP" });
@@ -225,6 +246,8 @@ pub fn execute(prog: Program) -> Outcome {
                 }
             }
             Op::Restart => {
+                // (a crash in the middle of a snapshot is C11's subject: let a racing one finish)
+                w.wait_declutter_idle(0, 20_000);
                 w.kill(0);
                 w.boot(0, "");
                 if !w.wait_primary(0, 8_000) {
@@ -246,6 +269,16 @@ pub fn execute(prog: Program) -> Outcome {
                 for db in 0..ndbs {
                     let name = DBNAMES[db];
                     match (&snap[db], dump_db(&dbs, name)) {
+                        (Some(_), Some(got)) if racy[db] => {
+                            // nothing exact is promised for this restart; continue from what was loaded
+                            let lv = live_view(&got);
+                            model[db] = lv.iter().map(|(k, v)| (k.clone(), v.0.clone())).collect();
+                            snap_model[db] = Some(model[db].clone());
+                            snap[db] = Some(lv);
+                            meta[db] = db_meta(&dbs, name);
+                            exists[db] = true;
+                            racy[db] = false;
+                        }
                         (Some(want), Some(got)) => {
                             let got_live = live_view(&got);
                             if &got_live != want {
